@@ -619,6 +619,11 @@ func (x *Exec) builtin(fr *Frame, st *State, site ssa.Instruction, c *ssa.CallCo
 		return Val{T: mkIte(lt, bb.T, a.T), Typ: rt}
 	case "print", "println":
 		return Val{Typ: rt}
+	case "close":
+		// channels are abstracted (sends dropped, receives arbitrary): closing one changes
+		// nothing that is modelled; closing a nil or closed channel (a panic) is not checked
+		x.assumed["close(ch): channels are abstracted; double close / close of nil not checked"] = true
+		return Val{Typ: rt}
 	case "ssa:wrapnilchk":
 		return x.val(fr, c.Args[0])
 	case "panic":
